@@ -26,9 +26,9 @@ import (
 // ---------------------------------------------------------------------------------------------
 
 type AlgSpec struct {
-	T  string  `json:"t"`  // "direct" | "rate" | "pid"
-	M  int     `json:"m"`  // maxPwmChangePerCycle (rate)
-	P  float64 `json:"-"`  // pid gains
+	T  string  `json:"t"` // "direct" | "rate" | "pid"
+	M  int     `json:"m"` // maxPwmChangePerCycle (rate)
+	P  float64 `json:"-"` // pid gains
 	I  float64 `json:"-"`
 	D  float64 `json:"-"`
 	Dt int     `json:"dt"` // tick in ms used by the driver (pid conformance), 0 = not fixed
